@@ -197,3 +197,14 @@ Theorem C14_blech32_recognised_canonical : forall s n p v k pr, In n nets ->
   p = n_blech32 n /\ to_blech32 (n_blech32 n) v k pr = Ok s.
 Proof. exact blech32_recognised_canonical. Qed.
 Print Assumptions C14_blech32_recognised_canonical.
+
+(* a confidential base58 address is recognised only when the inner address prefix (p2pkh / p2sh) belongs to
+   the network of the outer confidential prefix: hybrids of two networks are never recognised *)
+Theorem C14_conf_base58_inner_prefix : forall (b58dec : bytes -> option (bytes * byte))
+  (bech_dec : bytes -> option (bytes * bytes * bool)) (bcb : bytes -> N -> N -> bool -> option bytes) s t,
+  decode_type b58dec bech_dec bcb s = Ok t -> t = ConfidentialP2Pkh \/ t = ConfidentialP2Sh ->
+  exists n p rest, network_for_address b58dec s = Ok n /\ In n nets /\
+    b58dec s = Some (p :: rest, n_conf n) /\ length (p :: rest) = 54%nat /\
+    ((p = n_pkh n /\ t = ConfidentialP2Pkh) \/ (p = n_sh n /\ t = ConfidentialP2Sh)).
+Proof. exact conf_base58_inner_prefix. Qed.
+Print Assumptions C14_conf_base58_inner_prefix.
